@@ -1,5 +1,5 @@
 """C17 — 2-D and ragged run-length arrays behave as one run-length array per row."""
-import random, warnings
+import random, json, warnings
 import numpy as np
 import engine, gens, ragidx
 from engine import canon, guarded, refuse
@@ -100,7 +100,7 @@ def cases(rng, tier):
         f = rng.choice(ops)
         if it >= n_main:
             cls, f = "ragged", "col_range"
-        p = {"inp": inp, "cls": cls, "f": f, "dtype": rng.choice(["int64", "int64", "int32", "float64", "uint8"])}
+        p = {"inp": inp, "cls": cls, "f": f, "dtype": rng.choice(["int64", "int64", "int32", "float64", "uint8", "uint64", "int8", "float32"])}
         if f == "row_int":
             p["i"] = rng.randint(-r, r - 1)
         elif f == "rows":
@@ -130,9 +130,10 @@ def cases(rng, tier):
                                                      {"t": "list", "is": [rng.randint(-r, r - 1) for _ in range(rng.randint(1, 3))]},
                                                      {"t": "mask", "bs": [True] + [rng.random() < 0.6 for _ in range(r - 1)]}]))
         elif f == "scalar":
-            p.update(c=rng.randint(0 if p["dtype"] == "uint8" else -3, 9), side=rng.choice(["left", "right"]), uf=rng.choice(["subtract", "add", "multiply", "less", "maximum"]))
+            p.update(c={"int8": 100, "uint8": 200, "float32": 0.1}[p["dtype"]] if (p["dtype"] in ("int8", "uint8", "float32") and rng.random() < 0.5) else
+                     rng.randint(0 if p["dtype"] in ("uint8", "uint64") else -3, 9), side=rng.choice(["left", "right"]), uf=rng.choice(["subtract", "add", "multiply", "less", "maximum"]))
         elif f == "column":
-            p.update(col=[rng.randint(0 if p["dtype"] == "uint8" else -3, 9) for _ in range(r)], side=rng.choice(["left", "right"]), uf=rng.choice(["subtract", "add", "less"]))
+            p.update(col=[rng.randint(0 if p["dtype"] in ("uint8", "uint64") else -3, 9) for _ in range(r)], side=rng.choice(["left", "right"]), uf=rng.choice(["subtract", "add", "less"]))
         out.append(p)
     return out
 
@@ -200,9 +201,23 @@ def _nl(x):
 def run_impl(p):
     f = p["f"]
     def g():
+        # the operation, the operand afterwards (nothing may have been written into it), and the operation once more
         with np.errstate(all="ignore"), warnings.catch_warnings():
             warnings.simplefilter("ignore")
             rl = _build(p)
+            before = _norm(rl.to_array())
+        first = op(rl)
+        with np.errstate(all="ignore"), warnings.catch_warnings():
+            warnings.simplefilter("ignore")
+            if json.dumps(_norm(rl.to_array()), default=str) != json.dumps(before, default=str):
+                raise AssertionError("the operation changed its operand")
+        second = op(rl)
+        if json.dumps(first, default=str) != json.dumps(second, default=str):
+            raise AssertionError("the same operation on the same object gave two different results")
+        return first
+    def op(rl):
+        with np.errstate(all="ignore"), warnings.catch_warnings():
+            warnings.simplefilter("ignore")
             if f == "to_array":
                 return {"k": "val", "v": _norm(rl.to_array())}
             if f == "meta":
@@ -316,7 +331,7 @@ LEAN_F = {"to_array", "row_int", "rows", "element", "col_int", "sum", "max", "an
 
 def lean_request(p):
     f = p["f"]
-    if f not in LEAN_F or p["dtype"] in ("float64", "uint8"):
+    if f not in LEAN_F or p["dtype"] in ("float64", "float32", "uint8", "uint64", "int8"):
         return None
     if f in ("scalar", "column") and p["uf"] != "subtract":
         return None
